@@ -181,7 +181,7 @@ def handleCore (tbl : CharTable) (f : List String) (sqlite : Bool := false) : Op
     let cols ← cols.toNat?
     if cols < 2 then none
     let flags := if flags == "-" then "" else flags
-    if !(flags.toList.all (fun c => "tplBsr".toList.contains c)) then none
+    if !(flags.toList.all (fun c => "tplBsrw".toList.contains c)) then none
     let (hist, rows) ← if sqlite then (parseSqliteHist tbl.ws hist).map (fun p => (p.1, some p.2))
                        else (parseTexts hist).map (fun h => (h, none))
     let left ← parseText left
